@@ -4,7 +4,8 @@ Template directives (everything else in the template is copied as is - it is con
 types, assume_specifications, spec functions, lemmas):
 
   //@struct <file> <Name>            type definition from the repo (derives filtered, fields made pub)
-  //@enum   <file> <Name> [noclone]  (noclone: derive(Clone) dropped; the template supplies `impl Clone` with an assumed spec)
+  //@enum   <file> <Name> [noclone]  (noclone: derive(Clone) dropped; the template supplies `impl Clone` with an assumed spec;
+                                      structural: `Structural` added next to the derived PartialEq/Eq so that exec `==` is spec `==`)
   //@impl   <file> <impl anchor>     emits the repo's impl header + '{'   (anchor: `impl T` | `impl Tr for T`)
   //@endimpl                         emits '}'
   //@fn <file> <impl anchor|-> <name> [ret=<ident>]
@@ -20,6 +21,11 @@ types, assume_specifications, spec functions, lemmas):
   //@dropstmt <needle> | <replacement>   the statement of the body that STARTS with <needle> (up to its terminating `;` at the same
                                       nesting depth) is replaced by <replacement>.  Used only for a statement whose closure argument is
                                       outside Verus' subset; the dropped text is recorded (it is NOT verified) - see DESIGN 9.2 rule 11
+  //@continue_to_else <ordinal>      in the body of the n-th loop (a `for`), `if COND { continue; } REST` becomes `if COND {} else { REST }`
+                                      (Verus' for-loops do not support `continue`; same control flow) - DESIGN 9.2 rule 12
+  //@loopbody <ordinal> | <text>     ghost/proof line placed right after the opening brace of the n-th loop's body (erased code)
+  //@before <needle> | <text>        ghost/proof line placed before the statement that starts with <needle> (erased code)
+  //@atend | <text>                  ghost/proof line placed before the closing brace of the body (fall-through exit only; erased code)
   //@ghost | <text>                  (ghost/proof line placed right after the opening brace of the body; erased code)
 
 Parameter patterns `In(pat): In<T>` (Bevy system input) are not accepted by the verus! macro; they are desugared the
@@ -115,6 +121,38 @@ def _name_return(sig, ret):
     ty = rest[:mw.start()] if mw else rest
     tail = rest[mw.start():] if mw else ''
     return sig[:arrow] + '-> (%s: %s)\n' % (ret, ty.strip()) + tail
+
+
+def _loop_bodies(body):
+    """(keyword, body open brace, body close brace) of every loop, in source order."""
+    out = []
+    rx = re.compile(r'(while|for|loop)\b')
+    for j, d in rc.code_positions(body):
+        if j > 0 and (body[j - 1].isalnum() or body[j - 1] == '_'):
+            continue
+        m = rx.match(body, j)
+        if not m:
+            continue
+        pd = 0
+        for k, _ in rc.code_positions(body, m.end()):
+            c = body[k]
+            if c in '([': pd += 1
+            elif c in ')]': pd -= 1
+            elif c == '{' and pd == 0:
+                out.append((m.group(1), k, rc.match_close(body, k)))
+                break
+    return out
+
+
+def _continue_to_else(body, ordinal, fname):
+    loops = _loop_bodies(body)
+    if ordinal < 1 or ordinal > len(loops) or loops[ordinal - 1][0] != 'for':
+        raise CutError('fn %s: continue_to_else: loop %d is not a for loop' % (fname, ordinal))
+    _, ob, cb = loops[ordinal - 1]
+    m = re.compile(r'\{\s*continue\s*;\s*\}').search(body, ob, cb)
+    if not m:
+        raise CutError('fn %s: continue_to_else: no `{ continue; }` block in loop %d' % (fname, ordinal))
+    return body[:m.start()] + '{} else {' + body[m.end():cb] + '}' + body[cb:]
 
 
 def _replace_statement(body, needle, rep, fname):
@@ -243,6 +281,9 @@ def expand(template_path, repo='/repo'):
                 # derive(Clone) is replaced by an explicit impl with an (assumed) spec in the template
                 fa = re.sub(r'\bClone,\s*|,\s*Clone\b|\bClone\b', '', fa).replace('#[derive()]\n', '')
                 info['dropped_derives'].append('Clone (explicit impl with assumed spec in the template)')
+            if 'structural' in opts:
+                # `==` on this type is structural equality (all fields compared): lets Verus relate exec `==` to spec `==`
+                fa = re.sub(r'#\[derive\(([^)]*)\)\]', lambda mm: '#[derive(%s, Structural)]' % mm.group(1), fa, count=1)
             out.append(fa + _widen_type(text))
             side['types'].append({'file': f, 'name': name, 'line': rc.line_of(src(f), src(f).find(text))})
             side['dropped_derives'] += ['%s on %s' % (d, name) for d in info['dropped_derives']]
@@ -267,15 +308,26 @@ def expand(template_path, repo='/repo'):
                 toks = toks[:-1]
             name = toks[-1]
             anchor = ' '.join(toks[:-1])
-            clauses, loops, loopvars, ghosts, dropstmts = [], {}, {}, [], []
+            clauses, loops, loopvars, ghosts, dropstmts, c2e, loopbodies, atend, befores = [], {}, {}, [], [], [], {}, [], []
             while i + 1 < len(tpl) and (tpl[i + 1].strip().startswith('//@|') or tpl[i + 1].strip().startswith('//@loop')
-                                        or tpl[i + 1].strip().startswith('//@ghost') or tpl[i + 1].strip().startswith('//@dropstmt')):
+                                        or tpl[i + 1].strip().startswith('//@ghost') or tpl[i + 1].strip().startswith('//@dropstmt') or tpl[i + 1].strip().startswith('//@atend') or tpl[i + 1].strip().startswith('//@before')
+                                        or tpl[i + 1].strip().startswith('//@continue_to_else')):
                 i += 1
                 t = tpl[i].strip()
                 if t.startswith('//@|'):
                     clauses.append('        ' + t[4:].strip())
+                elif t.startswith('//@before'):
+                    nd, txt = t[len('//@before'):].split('|', 1)
+                    befores.append((nd.strip(), txt.strip()))
+                elif t.startswith('//@atend'):
+                    atend.append('        ' + t.split('|', 1)[1].strip())
                 elif t.startswith('//@ghost'):
                     ghosts.append('        ' + t.split('|', 1)[1].strip())
+                elif t.startswith('//@loopbody'):
+                    mm = re.match(r'//@loopbody\s+(\d+)\s*\|(.*)$', t)
+                    loopbodies.setdefault(int(mm.group(1)), []).append('            ' + mm.group(2).strip())
+                elif t.startswith('//@continue_to_else'):
+                    c2e.append(int(t.split()[1]))
                 elif t.startswith('//@dropstmt'):
                     nd, rep = t[len('//@dropstmt'):].split('|', 1)
                     dropstmts.append((nd.strip(), rep.strip()))
@@ -326,7 +378,28 @@ def expand(template_path, repo='/repo'):
             for needle, rep in dropstmts:
                 body, what = _replace_statement(body, needle, rep, name)
                 side.setdefault('replaced_statements', []).append({'fn': name, 'dropped_sha256': hashlib.sha256(what.encode()).hexdigest()[:16], 'dropped_head': re.sub(r'\s+', ' ', what)[:120], 'replacement': rep})
+            for ordinal in c2e:
+                body = _continue_to_else(body, ordinal, name)
+                side.setdefault('normalized_loops', []).append('%s: loop %d: `if C { continue; } REST` -> `if C {} else { REST }`' % (name, ordinal))
+            for ordinal in sorted(loopbodies, reverse=True):
+                lb = _loop_bodies(body)
+                if ordinal < 1 or ordinal > len(lb):
+                    raise CutError('fn %s: loopbody ordinal %d not found' % (name, ordinal))
+                ob = lb[ordinal - 1][1]
+                body = body[:ob + 1] + '\n' + '\n'.join(loopbodies[ordinal]) + body[ob + 1:]
             body = _insert_loop_invariants(body, loops, name, loopvars)
+            for needle, txt in befores:
+                rxn = re.compile(r'\s*'.join(re.escape(tok) for tok in needle.split()))
+                pos = None
+                for j, d in rc.code_positions(body):
+                    if rxn.match(body, j) and (j == 0 or not (body[j - 1].isalnum() or body[j - 1] == '_')):
+                        pos = j; break
+                if pos is None:
+                    raise CutError('fn %s: statement for //@before not found: %s' % (name, needle))
+                body = body[:pos] + txt + '\n        ' + body[pos:]
+            if atend:
+                cb_ = body.rindex('}')
+                body = body[:cb_] + '\n'.join(atend) + '\n    ' + body[cb_:]
             sig, in_lets = _desugar_in_params(sig)
             if in_lets or ghosts:
                 ob = body.index('{')
